@@ -25,6 +25,11 @@ Inductive op :=
 
 Inductive out := OUnit | OVal (v : ref) | OList (l : list ref) | OErr (e : exn).
 
+Definition out_eq_dec : forall a b : out, {a = b} + {a <> b}.
+Proof.
+  decide equality; auto using ref_eq_dec, exn_eq_dec, (list_eq_dec ref_eq_dec).
+Defined.
+
 Record oa_flags := mkflags { f_var_keyword : bool; f_defaults : bool; f_unset : bool;
                              f_positional : bool; f_equal_to_default : bool }.
 
